@@ -33,6 +33,7 @@ Check (C13_yaml_string_survives_under_contract :
 Check (C13_yaml_contract_necessary : forall s, nonstring_spelling s = true -> resolve Plain None s <> RStr s).
 Check (C13_loaders_agree : forall t : jtree, in_scope t = true ->
   loader_run (events t) = Some (denote t) /\ serde_run (events t) = Some (denote t)).
+Check (C13_from_sci_grammar : forall v : str, is_some (from_sci v) = sci_grammar v).
 (* the definitions the statements are about are the executable ones (not re-bound) *)
 Check (eq_refl : i64_min = (- 2 ^ 63)%Z).
 Check (eq_refl : u64_max = (2 ^ 64 - 1)%Z).
